@@ -340,6 +340,8 @@ static void op_vec(void)
     else if (!strcmp(op, "Log2Norm")) { esl_vec_DLog2Norm(x, n); out_dvec(x, n); }
     else if (!strcmp(op, "Log"))      { esl_vec_DLog(x, n); out_dvec(x, n); }
     else if (!strcmp(op, "Exp"))      { esl_vec_DExp(x, n); out_dvec(x, n); }
+    else if (!strcmp(op, "Log2"))     { esl_vec_DLog2(x, n); out_dvec(x, n); }
+    else if (!strcmp(op, "Exp2"))     { esl_vec_DExp2(x, n); out_dvec(x, n); }
     else if (!strcmp(op, "LogSum"))   h_out("ok %s", DB(esl_vec_DLogSum(x, n)));
     else if (!strcmp(op, "Log2Sum"))  h_out("ok %s", DB(esl_vec_DLog2Sum(x, n)));
     else if (!strcmp(op, "Entropy"))  h_out("ok %s", DB(esl_vec_DEntropy(x, n)));
@@ -373,6 +375,8 @@ static void op_vec(void)
     else if (!strcmp(op, "Log2Norm")) { esl_vec_FLog2Norm(x, n); out_fvec(x, n); }
     else if (!strcmp(op, "Log"))      { esl_vec_FLog(x, n); out_fvec(x, n); }
     else if (!strcmp(op, "Exp"))      { esl_vec_FExp(x, n); out_fvec(x, n); }
+    else if (!strcmp(op, "Log2"))     { esl_vec_FLog2(x, n); out_fvec(x, n); }
+    else if (!strcmp(op, "Exp2"))     { esl_vec_FExp2(x, n); out_fvec(x, n); }
     else if (!strcmp(op, "LogSum"))   h_out("ok %s", FB(esl_vec_FLogSum(x, n)));
     else if (!strcmp(op, "Log2Sum"))  h_out("ok %s", FB(esl_vec_FLog2Sum(x, n)));
     else if (!strcmp(op, "Entropy"))  h_out("ok %s", FB(esl_vec_FEntropy(x, n)));
@@ -395,6 +399,11 @@ static void op_vec(void)
     else if (!strcmp(op, "SortIncreasing")) { esl_vec_ISortIncreasing(x, n); h_out("ok %s", h_hex(x, 4*n)); }
     else if (!strcmp(op, "SortDecreasing")) { esl_vec_ISortDecreasing(x, n); h_out("ok %s", h_hex(x, 4*n)); }
     else if (!strcmp(op, "Reverse"))  { int *r = malloc(4*n + 4); esl_vec_IReverse(x, r, n); h_out("ok %s", h_hex(r, 4*n)); free(r); }
+    else if (!strcmp(op, "Scale"))    { esl_vec_IScale(x, n, (int) h_argi("k", 1)); h_out("ok %s", h_hex(x, 4*n)); }
+    else if (!strcmp(op, "Increment")){ esl_vec_IIncrement(x, n, (int) h_argi("k", 1)); h_out("ok %s", h_hex(x, 4*n)); }
+    else if (!strcmp(op, "Add"))      { esl_vec_IAdd(x, y, n); h_out("ok %s", h_hex(x, 4*n)); }
+    else if (!strcmp(op, "AddScaled")){ esl_vec_IAddScaled(x, y, (int) h_argi("k", 1), n); h_out("ok %s", h_hex(x, 4*n)); }
+    else if (!strcmp(op, "MatScale")) { int M = (int) h_argi("m", 1); int **A = esl_mat_ICreate(M, (int)(n / M)); memcpy(A[0], x, 4*n); esl_mat_IScale(A, M, (int)(n / M), (int) h_argi("k", 1)); h_out("ok %s", h_hex(A[0], 4*n)); esl_mat_IDestroy(A); }
     else h_out("bad-op");
   } else if (T == 'L') {
     int64_t *x = (int64_t *) xb, *y = (int64_t *) yb; n = nx / 8;
@@ -407,6 +416,11 @@ static void op_vec(void)
     else if (!strcmp(op, "ArgMin"))   h_out("ok %" PRId64, esl_vec_LArgMin(x, n));
     else if (!strcmp(op, "SortIncreasing")) { esl_vec_LSortIncreasing(x, n); h_out("ok %s", h_hex(x, 8*n)); }
     else if (!strcmp(op, "SortDecreasing")) { esl_vec_LSortDecreasing(x, n); h_out("ok %s", h_hex(x, 8*n)); }
+    else if (!strcmp(op, "Reverse"))  { int64_t *r = malloc(8*n + 8); esl_vec_LReverse(x, r, n); h_out("ok %s", h_hex(r, 8*n)); free(r); }
+    else if (!strcmp(op, "Scale"))    { esl_vec_LScale(x, n, h_argi("k", 1)); h_out("ok %s", h_hex(x, 8*n)); }
+    else if (!strcmp(op, "Increment")){ esl_vec_LIncrement(x, n, h_argi("k", 1)); h_out("ok %s", h_hex(x, 8*n)); }
+    else if (!strcmp(op, "Add"))      { esl_vec_LAdd(x, y, n); h_out("ok %s", h_hex(x, 8*n)); }
+    else if (!strcmp(op, "AddScaled")){ esl_vec_LAddScaled(x, y, h_argi("k", 1), n); h_out("ok %s", h_hex(x, 8*n)); }
     else h_out("bad-op");
   } else h_out("bad-op");
   DONE;
